@@ -1713,3 +1713,38 @@ Proof.
     apply Nat.ltb_lt in A. apply Nat.ltb_lt in B. lia.
   - exfalso. unfold kids, rec_of in Hin. rewrite nth_overflow in Hin by lia. destruct Hin.
 Qed.
+
+Lemma inside_valid_proof : forall g sv, wf_graph g -> forall mode q,
+  match eval_forward g sv mode q with
+  | FOk ns valid =>
+      (forall m, In m ns -> exists stk, real_path g root stk m /\ forall x, In x stk -> In x valid) /\
+      (forall qa stk m, In (stk, m) (fst (frn g qa (S (length g)) root [] (valid, ns))) ->
+                        forall x, In x stk -> In x valid)
+  | _ => True
+  end.
+Proof.
+  intros g sv wf mode q. pose proof (eval_forward_conn g sv wf mode q) as HC.
+  destruct (eval_forward g sv mode q) as [ns valid|k|k]; try exact I.
+  split; [exact HC|].
+  intros qa stk m Hin x Hx.
+  destruct (frn_sound g qa (S (length g)) root [] (valid, ns)) as [_ [_ Hs]].
+  destruct (Hs stk m Hin) as [_ [suf [-> [_ Hall]]]]. cbn [app fst] in *. apply Hall. assumption.
+Qed.
+
+Lemma empty_mode_table_proof : forall g sv q,
+  (exists ns v, eval_forward g sv NullSet q = FOk ns v) /\
+  (forall ns v, eval_forward g sv NullFail q = FOk ns v -> ns <> []) /\
+  (forall k, eval_forward g sv NullGlob q <> FNoMatch k) /\
+  (simple_path q = true -> forall ns v, eval_forward g sv NullGlob q = FOk ns v -> ns <> []).
+Proof.
+  intros g sv q. unfold eval_forward.
+  split; [apply nullset_never_raises_loop|].
+  split; [intros ns v; apply nullfail_nonempty_loop; cbn [f_nodes]; discriminate|].
+  split; [intros k; apply nullglob_never_nomatch_loop|].
+  intros Hs ns v. apply nullglob_simple_loop; [assumption | reflexivity | cbn [f_nodes]; discriminate].
+Qed.
+
+Lemma axis_closure_correct_proof : forall g, wf_graph g -> forall ind ns m,
+  (In m (ax_desc g ind ns) <-> exists n, In n ns /\ tc (edge g ind) n m) /\
+  (In m (ax_anc g ind ns) <-> exists n, In n ns /\ tc (edge g ind) m n).
+Proof. intros g wf ind ns m. split; [apply ax_desc_correct | apply ax_anc_correct]; assumption. Qed.
